@@ -134,8 +134,9 @@ end D2P
 namespace D2P
 
 theorem closeStep_flat (cfg : PartCfg) (s s' : DC) (x : Xml) (hx : isStructural x = false) (h : HasTop s)
-    (he : closeStep cfg s x = .ok s') : Grow s s' [] := by
-  unfold closeStep at he
+    (hd : elemDepth x = none) (he : closeStep cfg s x = .ok s') : Grow s s' [] := by
+  rw [closeStep_depth_none cfg s x hd] at he
+  unfold closeStepCore at he
   unfold isStructural at hx
   split at he
   · rename_i hm; rw [hm] at hx; simp at hx
@@ -153,7 +154,7 @@ theorem walk_flat (cfg : PartCfg) (num : Dict Str (List NumAttr)) :
   | .elem i p t m a tx tl ks, c, s, s', hf, ht, h => by
     have hd := elemDepth_flat _ hf
     simp only [flatInline, Bool.and_eq_true, Bool.not_eq_true'] at hf
-    simp only [walk, hd, setCaret_none, ok_bind, not_link_of_flat _ hf.1, Bool.false_eq_true, if_false] at h
+    simp only [walk, hd, setCaretOpen_none, setCaret_none, ok_bind, not_link_of_flat _ hf.1, Bool.false_eq_true, if_false] at h
     obtain ⟨roots, hr, h⟩ := bind_ok h
     have := pure_ok hr; subst this
     obtain ⟨⟨s2, rec⟩, h2, h⟩ := bind_ok h
@@ -166,13 +167,13 @@ theorem walk_flat (cfg : PartCfg) (num : Dict Str (List NumAttr)) :
     | true =>
       simp only [if_true] at h3
       obtain ⟨t1, hk, g1⟩ := walkL_flat cfg num ks _ s2 s3 hf.2 g0.hasTop h3
-      have g4 := closeStep_flat cfg s3 s4 _ hf.1 g1.hasTop h4
+      have g4 := closeStep_flat cfg s3 s4 _ hf.1 g1.hasTop hd h4
       refine ⟨t0 ++ t1, ?_, by simpa using (g0.trans g1).trans g4⟩
       simp only [inlineText, ho, ok_bind, if_true, hk]; rfl
     | false =>
       simp only [Bool.false_eq_true, if_false] at h3
       have := pure_ok h3; subst this
-      have g4 := closeStep_flat cfg s2 s4 _ hf.1 g0.hasTop h4
+      have g4 := closeStep_flat cfg s2 s4 _ hf.1 g0.hasTop hd h4
       refine ⟨t0, ?_, by simpa using g0.trans g4⟩
       simp only [inlineText, ho, ok_bind, Bool.false_eq_true, if_false]
       show (Except.ok (t0 ++ []) : M Str) = Except.ok t0
